@@ -286,6 +286,7 @@ def generate():
             "From Coq Require Import List.\nFrom PV Require Import Spin.Lang.\nImport ListNotations.\n\n"
             "Definition gen_spin : cls :=\n  %s.\n\nDefinition gen_rspin : cls :=\n  %s.\n\n"
             "Definition prog : Lang.prog := {| spin_cls := gen_spin; rspin_cls := gen_rspin |}.\n"
+            "Definition gen_prog : Lang.prog := prog.\n"
             % (render(sp), render(rs)))
 
 
